@@ -18,6 +18,9 @@ func checkC05(r *Report, p *Program) {
 	r05_1(r, p)
 	vacuousAssertGuards(r, p, "R05.2")
 	r05_7(r, p)
+	lastAppliedIsHookAnswer(r, p, "R05.8")
+	r05_9(r, p)
+	r05_10(r, p)
 	// what ApplyUpdate's helpers touch are private copies: the objects handed in (observed child from the cache, the merge result about to be sent) are not edited behind the caller's back — shared with C17
 	r17_1(r, p)
 	r05_3(r, p)
@@ -176,57 +179,44 @@ func vacuousAssertGuards(r *Report, p *Program, rule string) {
 				}
 			}
 		}
-		// polarity, both directions: a clash error is returned exactly for 'assertion failed ∧ operand non-nil'
-		nClash := 0
-		for _, b := range engine.BlocksInl(m) {
-			if len(b.Instrs) == 0 {
-				continue
-			}
-			iff, isIf := b.Instrs[len(b.Instrs)-1].(*ssa.If)
-			if !isIf {
-				continue
-			}
-			okl := engine.CondLit(iff.Cond, true)
-			ex, isE := okl.Cond.(*ssa.Extract)
-			if !isE || ex.Index != 1 {
-				continue
-			}
-			ta, isTA := ex.Tuple.(*ssa.TypeAssert)
-			if !isTA || !ta.CommaOk {
-				continue
-			}
-			opnd, isP := ta.X.(*ssa.Parameter)
-			if !isP || len(m.Params) < 4 || (opnd != m.Params[2] && opnd != m.Params[3]) {
-				continue // (the type switch on the destination is not a clash guard)
-			}
-			nClash++
-			fail, succ := b.Succs[1], b.Succs[0]
-			if !okl.Pos {
-				fail, succ = succ, fail
-			}
-			straightErr := func(from *ssa.BasicBlock, cutNonNil, cutNil bool) bool {
-				return engine.Query{Fn: m, From: []engine.Point{{B: from}},
-					CutEdge: func(bb *ssa.BasicBlock, i int, l *Lit) bool {
-						if l == nil {
-							return false
+		// polarity, both directions, on the paths of merge (whatever the order of the two tests in the guard):
+		// assertion on V failed ∧ V non-nil ⇒ the path ends in a clash error; assertion failed ∧ V nil ⇒ it does not
+		// end in an error on V's account
+		if len(m.Params) >= 4 {
+			paths, perr := engine.EnumPaths(m, engine.EnumOpts{})
+			for _, opnd := range []*ssa.Parameter{m.Params[2], m.Params[3]} {
+				on := E(opnd)
+				okV, whyV, seen := perr == nil, "", 0
+				for _, pa := range paths {
+					failed := pa.Has(false, func(a string) bool { return strings.HasPrefix(a, "assert<") && strings.HasSuffix(a, ">("+on+")#1") })
+					if !failed {
+						continue
+					}
+					seen++
+					nilV := val(pa, -1, func(a string) bool { return a == "("+on+" == nil)" })
+					rt, isR := pa.End.(*ssa.Return)
+					errEnd := isR && engine.ReturnsFreshError(rt)
+					otherClash := false
+					for _, o2 := range []*ssa.Parameter{m.Params[2], m.Params[3]} {
+						if o2 != opnd && pa.Has(false, func(a string) bool { return strings.HasPrefix(a, "assert<") && strings.HasSuffix(a, ">("+E(o2)+")#1") }) &&
+							val(pa, -1, func(a string) bool { return a == "("+E(o2)+" == nil)" }) == -1 {
+							otherClash = true
 						}
-						if v, isNil, isT := l.NilTest(); isT && v == ssa.Value(opnd) {
-							return isNil && cutNil || !isNil && cutNonNil
-						}
-						return true
-					},
-					Target: func(x ssa.Instruction) bool { rt, isR := x.(*ssa.Return); return isR && engine.ReturnsFreshError(rt) }}.Find() != nil
+					}
+					switch {
+					case nilV == -1 && !errEnd:
+						okV, whyV = false, "a "+on+" of the wrong type (assertion failed, operand not nil) does not lead to the type-clash error"
+					case nilV == 1 && errEnd && !otherClash:
+						okV, whyV = false, "an absent (nil) "+on+" is reported as a type clash: every field that only the other sides have fails the merge"
+					case nilV == 0 && !errEnd:
+						okV, whyV = false, "after the assertion on "+on+" failed the operand is not tested for nil and no error follows: a value of the wrong type is silently treated as absent"
+					}
+				}
+				if seen == 0 {
+					okV, whyV = false, "no path on which the type assertion of "+on+" fails"
+				}
+				r.Check(rule, FK(m)+"[clash⇔failed∧non-nil:"+on+"]", p.Pos(m.Pos()), okV, "clash error exactly for failed ∧ non-nil", whyV)
 			}
-			c := FK(m) + "[clash⇔failed∧non-nil:" + E(opnd) + "]"
-			switch {
-			case !straightErr(fail, false, true):
-				r.Check(rule, c, p.InstrPos(iff), false, "", "a "+E(opnd)+" of the wrong type (assertion failed, operand not nil) does not lead to the type-clash error")
-			case straightErr(fail, true, false):
-				r.Check(rule, c, p.InstrPos(iff), false, "", "an absent (nil) "+E(opnd)+" is reported as a type clash: every field that only the other sides have fails the merge")
-			default:
-				r.Check(rule, c, p.InstrPos(iff), true, "clash error exactly for failed ∧ non-nil", "")
-			}
-			_ = succ
 		}
 		r.Check(rule, FK(m)+"[clash-guards-on-operand]", p.Pos(m.Pos()), good >= 4, sf("%d operand nil tests guard the clash errors", good), sf("only %d of the 4 type-clash guards test the operand (lastApplied/desired): a desired value of the wrong type is dropped without error", good))
 	}
@@ -689,4 +679,89 @@ func r05_7(r *Report, p *Program) {
 		}
 		r.Check(rule, FK(m)+"[premise]", p.Pos(m.Pos()), over, "makeListMap stores by key (so uniqueness is what keeps entries apart)", "makeListMap no longer stores items by merge key: the premise of R05.7 changed, re-read")
 	}
+}
+
+// r05_9: merge() delegates — an object destination is merged by mergeObject, an array destination by mergeArray;
+// neither branch has a success return of its own (a shortcut there skips the removal of no-longer-desired keys
+// and the application of desired ones).
+func r05_9(r *Report, p *Program) {
+	const rule = "R05.9"
+	r.Rule(rule, "merge: every return that reports success is the result of mergeObject (object destination) or mergeArray (array destination), or lies in the scalar branch (both type tests failed)")
+	r.Floor(rule, 1)
+	m := fn(r, p, rule, "dynamic/apply.merge")
+	if m == nil {
+		return
+	}
+	ok, why := true, ""
+	n := 0
+	destAssert := func(l Lit) bool {
+		return strings.HasPrefix(l.Atom, "assert<") && strings.HasSuffix(l.Atom, ">(p1)#1") || strings.HasPrefix(l.Atom, "typeswitch") && strings.Contains(l.Atom, "p1")
+	}
+	for _, b := range m.Blocks {
+		rt, isR := b.Instrs[len(b.Instrs)-1].(*ssa.Return)
+		if !isR || len(rt.Results) != 2 {
+			continue
+		}
+		n++
+		if engine.ReturnsFreshError(rt) {
+			continue
+		}
+		v := engine.RetVal(rt, 0)
+		if ex, isEx := v.(*ssa.Extract); isEx {
+			if c, isC := ex.Tuple.(*ssa.Call); isC && (isCallTo(c, "apply.mergeObject") || isCallTo(c, "apply.mergeArray")) {
+				continue
+			}
+		}
+		// otherwise it must be in the scalar branch: reachable only with every destination type test failed
+		if w := (engine.Query{Fn: m, Target: func(x ssa.Instruction) bool { return x == ssa.Instruction(rt) },
+			CutEdge: func(bb *ssa.BasicBlock, i int, l *Lit) bool { return l != nil && !l.Pos && destAssert(*l) }}).Find(); w != nil {
+			// reachable without crossing a failed destination type test; is it reachable across a SUCCESSFUL one?
+			if w2 := unguarded(m, nil, rt, func(l Lit) bool { return !l.Pos && destAssert(l) }); w2 != nil {
+				ok, why = false, "merge returns "+E(v)+" from a branch in which the destination is an object or an array, without going through mergeObject/mergeArray: keys that are no longer desired are not removed there (and desired ones not applied)"
+			}
+		}
+	}
+	if n < 3 {
+		ok, why = false, "merge has fewer returns than its three branches need"
+	}
+	r.Check(rule, FK(m), p.Pos(m.Pos()), ok, "object ⇒ mergeObject, array ⇒ mergeArray, scalar ⇒ desired", why)
+}
+
+// r05_10: SetLastApplied records the annotation by REPLACING the annotations map (SetAnnotations of a copy or a
+// fresh map). The merge result shares sub-trees with the desired object wherever the observed object had none:
+// an in-place nested write would land in the caller's desired object.
+func r05_10(r *Report, p *Program) {
+	const rule = "R05.10"
+	r.Rule(rule, "SetLastApplied edits its object only through SetAnnotations(copy-or-fresh map)")
+	r.Floor(rule, 1)
+	f := fn(r, p, rule, "dynamic/apply.SetLastApplied")
+	if f == nil || len(f.Params) == 0 {
+		return
+	}
+	ok, why := true, ""
+	nSet := 0
+	for _, m := range engine.LocalMutations(f, f.Params[0]) {
+		if m.What == "SetAnnotations" {
+			nSet++
+			continue
+		}
+		ok, why = false, "SetLastApplied edits the object through "+m.What+" ("+p.InstrPos(m.Instr)+"): a nested write in place can land in a sub-tree the merge result shares with the caller's desired object (observed child without annotations)"
+	}
+	if nSet == 0 && ok {
+		ok, why = false, "SetLastApplied no longer calls SetAnnotations"
+	}
+	for _, cs := range callsTo(f, false, "Unstructured.SetAnnotations") {
+		a := cs.Common().Args[1]
+		fresh := engine.BackSlice(a, func(x ssa.Value) bool {
+			if _, isMk := x.(*ssa.MakeMap); isMk {
+				return true
+			}
+			c, isC := x.(*ssa.Call)
+			return isC && strings.HasSuffix(engine.CallKey(c.Common()), "Unstructured.GetAnnotations")
+		}, nil)
+		if !fresh {
+			ok, why = false, "the map given to SetAnnotations is "+E(a)+", not a copy (GetAnnotations) or a fresh map"
+		}
+	}
+	r.Check(rule, FK(f), p.Pos(f.Pos()), ok, "annotation recorded by replacing the annotations map", why)
 }
